@@ -187,6 +187,18 @@ func (c02Sys) Step(s *c02State, l engine.Letter) (*c02State, string, *engine.Vio
 			if got := balanceOf(s.w, ctx, world.Addr("bob"), "uxx") - bobBefore; got != int64(wdr.Amount) {
 				return c, "accepted", viol("finalize-pays-exactly-the-amount", "recipient received %d, expected %d", got, wdr.Amount)
 			}
+			// the payment is announced in exactly one event that names this withdrawal and nothing else
+			want := map[string]string{"bridge_id": "1", "output_index": fmt.Sprint(d.idx), "l2_sequence": fmt.Sprint(wdr.Seq), "from": wdr.From, "to": wdr.To,
+				"l1_denom": wdr.Denom, "l2_denom": ref.L2Denom(1, wdr.Denom), "amount": fmt.Sprint(wdr.Amount)}
+			evs := world.EventsOfType(res.Events, "finalize_token_withdrawal")
+			if len(evs) != 1 || len(evs[0].Attributes) != len(want) {
+				return c, "accepted", viol("finalize-is-announced-faithfully", "%d finalize_token_withdrawal events (attributes %v)", len(evs), evs)
+			}
+			for k, w := range want {
+				if got, ok := world.Attr(evs[0], k); !ok || got != w {
+					return c, "accepted", viol("finalize-is-announced-faithfully", "finalize_token_withdrawal event: %s=%q, expected %q", k, got, w)
+				}
+			}
 			c.paid[d.w] = true
 			if s.paid[d.w] == false && d.idx == 2 {
 				return c, "accepted-via-idx2", nil
